@@ -117,4 +117,8 @@ PrefixSorted == SortedDesc(RowsF, outPsm)
 OutcomeIsF == pc = "done" /\ TieFreeInGroups(RowsF, Ids, NLev) =>
                  /\ SeqSet(outPsm) = UniquePsm(RowsF, Ids, dedup)
                  /\ rollup => \A k \in 1..NLev : SeqSet(outLev[k]) = UniqueLevel(RowsF, UniquePsm(RowsF, Ids, dedup), k)
+\* ---- liveness (checked by Confidence_live.cfg): under weak fairness of the next-state action every behaviour comes to rest
+\* in a state without successor -- the modelled procedure terminates for every input, schedule and fault inside the bounds
+FairSpec == Spec /\ WF_vars(Next)
+Halts == <>[](~ENABLED Next)
 =============================================================================
